@@ -463,7 +463,16 @@ func runLoopCase(r *rng, caseID string, o genOpts, fanIn int) map[string]any {
 					break
 				}
 				if st.plan[st.pc].waitFor == "enabling" {
-					en := in["enabled"] == nil || in["enabled"] == true
+					// as the real providers decide since /repo d308cbb: nil enables, anything else is read through the bool
+					// schema (the run loop has validated the stage input against that schema before providing it)
+					en := true
+					if in["enabled"] != nil {
+						if v, err := schema.NewBoolSchema().Unserialize(in["enabled"]); err == nil {
+							en = v.(bool)
+						} else {
+							en = false
+						}
+					}
 					if !en && outcomes[id] != "closed_enabling_late" {
 						st.plan = append(append([]stubAction{}, st.plan[:st.pc+1]...),
 							pluginPlan(outcomes[id], true, id)[st.pc+1:]...)
